@@ -479,13 +479,19 @@ class Skip(Exception):
     pass
 
 
-def build_plot(q, np, case):
-    """returns (plot, info) — info per object: API-level facts needed by the model / oracles"""
+def build_plot(q, np, case, p=None, info=None, lo=None, hi=None):
+    """returns (plot, info) — info per object: API-level facts needed by the model / oracles.
+    With `p` given, the objects lo <= idx < hi are added to that existing plot (a step of a
+    history) and the plot's switches are left alone."""
     from qexpy.plotting.plotting import Plot
-    p = Plot()
-    info = []
+    step = p is not None
+    p = p if step else (ModulePlot() if case.get("via_module") else Plot())
+    info = info if step else []
+    lo, hi = (lo, hi) if step else (0, case.get("n0", len(case["objs"])))
     datasets = {}
     for idx, o in enumerate(case["objs"]):
+        if not lo <= idx < hi:
+            continue
         t = o["t"]
         if t == "dataset":
             ds = add_dataset(q, np, p, o)
@@ -504,6 +510,9 @@ def build_plot(q, np, case):
                 kw["range"] = tuple(o["range"])
             if o["label"]:
                 kw["label"] = o["label"]
+            kw.update(hist_kwargs(o))
+            if o.get("default_bins"):
+                del kw["bins"]          # the library's default binning (10 bins)
             s = q.MeasurementArray(list(o["samples"])) if o["how"] == "marray" else list(o["samples"])
             n, edges = p.hist(s, **kw)
             info.append({"returned": ([float(v) for v in n], [float(v) for v in edges])})
@@ -525,6 +534,8 @@ def build_plot(q, np, case):
             except RuntimeError as e:
                 raise Skip("fit did not converge: {}".format(e))
             info.append({"result": res})
+    if step:
+        return p, info
     if case["xrange"] is not None:
         p.xrange = tuple(case["xrange"])
     for k, v in case["over"].items():
@@ -601,7 +612,7 @@ def read_axes(np, ax, which):
             ps = list(c.patches)
             edges = [float(r.get_x()) for r in ps] + ([float(ps[-1].get_x() + ps[-1].get_width())] if ps else [])
             out["bars"].append({"heights": [float(r.get_height()) for r in ps], "edges": edges,
-                                "label": c.get_label()})
+                                "label": ps[0].get_label() if ps else c.get_label()})
     out["xlabel"], out["ylabel"], out["title"] = ax.get_xlabel(), ax.get_ylabel(), ax.get_title()
     leg = ax.get_legend()
     out["legend"] = sorted(t.get_text() for t in leg.get_texts()) if leg is not None else None
@@ -645,6 +656,8 @@ def observe(q, np, case):
                 return out
             out["main"] = read_axes(np, p.main_ax, "main")
             out["res"] = read_axes(np, p.res_ax, "res") if p.res_ax is not None else None
+            if case.get("steps"):
+                out["renders"] = later_renders(q, np, case, p, info)
             # API-level facts
             api = []
             for o, inf in zip(case["objs"], info):
@@ -669,6 +682,7 @@ def observe(q, np, case):
                                "errors": [float(v.error) for v in ff]}
                 elif o["t"] == "hist":
                     a["returned"] = inf["returned"]
+                    a.update(hist_numpy(np, o))
                 elif o["t"] == "dataset":
                     ds = inf["dataset"]
                     a["data"] = {"xs": [float(v) for v in ds.xvalues], "ys": [float(v) for v in ds.yvalues],
@@ -719,8 +733,14 @@ def model_line(case, obs):
                          "xname": o["xname"], "xunit": o["xunit"], "yname": o["yname"],
                          "yunit": o["yunit"], "label": o["label"]})
         elif t == "hist":
-            h = {"t": "hist", "samples": _b(o["samples"]), "label": o["label"]}
-            if isinstance(o["bins"], list):
+            h = {"t": "hist", "samples": _b(o["samples"]), "label": o["label"],
+                 "density": bool(o.get("density")),
+                 "weights": _b(o["weights"]) if o.get("weights") is not None else None}
+            if isinstance(o["bins"], str):
+                # a named rule ("auto", "sturges", ...): the edges are numpy's, as returned to the
+                # caller (checked against numpy.histogram_bin_edges by the harness)
+                h["edges"] = _b(obs["api"][idx]["returned"][1])
+            elif isinstance(o["bins"], list):
                 h["edges"] = _b(o["bins"])
             else:
                 h["bins"] = o["bins"]
@@ -761,9 +781,9 @@ def describe(case):
             parts.append("function({} params, {} measured, range={})".format(
                 len(o["params"]), sum(1 for _, e in o["params"] if e is not None), o["range"]))
         elif t == "hist":
-            parts.append("hist(n={}, bins={}, range={})".format(
+            parts.append("hist(n={}, bins={}, range={}{})".format(
                 len(o["samples"]), o["bins"] if not isinstance(o["bins"], list) else
-                "edges[{}]".format(len(o["bins"])), o["range"]))
+                "edges[{}]".format(len(o["bins"])), o["range"], hist_opts_text(o)))
         else:
             parts.append("fit({}, {}, range={}, via {})".format(
                 o["model"], "deg={}".format(o["degrees"]) if o["degrees"] else (
@@ -776,3 +796,308 @@ def describe(case):
 
 def _kind(e):
     return "none" if e is None else "common" if isinstance(e, (int, float)) else "per-point"
+
+
+# ----------------------------------------------------------------------------- histogram options
+STR_BINS = ["auto", "sturges", "sqrt", "fd", "doane", "scott", "rice", "stone"]
+
+
+def hist_kwargs(o):
+    """density= / weights= / a named binning rule, as given to Plot.hist"""
+    kw = {}
+    if isinstance(o["bins"], str):
+        kw["bins"] = o["bins"]
+    if o.get("density"):
+        kw["density"] = True
+    if o.get("weights") is not None:
+        kw["weights"] = list(o["weights"])
+    return kw
+
+
+def hist_numpy(np, o):
+    """independent oracle: numpy.histogram (and numpy.histogram_bin_edges for a named rule) on the
+    same samples and the same arguments"""
+    kw = {"bins": list(o["bins"]) if isinstance(o["bins"], list) else o["bins"]}
+    if o.get("default_bins"):
+        del kw["bins"]
+    if o["range"] is not None:
+        kw["range"] = tuple(o["range"])
+    out = {}
+    a = np.asarray(o["samples"], dtype=float)
+    if isinstance(o["bins"], str):
+        out["numpy_edges"] = [float(v) for v in np.histogram_bin_edges(a, **kw)]
+    if o.get("density"):
+        kw["density"] = True
+    if o.get("weights") is not None:
+        kw["weights"] = np.asarray(o["weights"], dtype=float)
+    n, e = np.histogram(a, **kw)
+    out["numpy"] = ([float(v) for v in n], [float(v) for v in e])
+    return out
+
+
+def hist_opts_text(o):
+    w = o.get("weights")
+    return "{}{}{}".format(" (default)" if o.get("default_bins") else "",
+                           ", density" if o.get("density") else "",
+                           ", weights[{}]".format(len(w)) if w is not None else "")
+
+
+def hist_options(rng, h, target=False):
+    """density / weights / a named binning rule on top of gen_hist's samples and binning.
+    `target`: the histogram is fitted by Plot.fit (the number of bins must stay known)."""
+    h = dict(h)
+    n = len(h["samples"])
+    r = rng.random()
+    if r < 0.22 and not target:
+        h["bins"] = rng.choice(STR_BINS)
+        h["range"] = None
+        if rng.random() < 0.4:
+            s = sorted(h["samples"])
+            lo, hi = s[0] + rng.choice([0, 0.5, -1.0]), s[-1] - rng.choice([0, 0.5, -1.0])
+            inside = [v for v in s if lo <= v <= hi]
+            if lo < hi and len(inside) >= 3 and inside[0] < inside[-1]:
+                h["range"] = [lo, hi]
+    elif r < 0.34 and not target:
+        if isinstance(h["bins"], list):
+            h["range"] = None
+        h["bins"], h["default_bins"] = 10, True     # no bins= given: the default binning
+    h["density"] = rng.random() < 0.4
+    h["weights"] = None
+    if rng.random() < 0.4 and not isinstance(h["bins"], str):
+        m = rng.random()
+        if m < 0.4:
+            h["weights"] = [rng.randint(0, 12) / 4 for _ in range(n)]      # dyadic, some zero
+        elif m < 0.8:
+            h["weights"] = [rng.uniform(0.1, 2.5) for _ in range(n)]
+        else:
+            h["weights"] = [float(rng.randint(1, 5)) for _ in range(n)]
+    if h["density"]:
+        # a normalised histogram needs a non-zero total inside the bins
+        if isinstance(h["bins"], list):
+            lo, hi = h["bins"][0], h["bins"][-1]
+        elif h["range"] is not None:
+            lo, hi = h["range"]
+        else:
+            lo, hi = min(h["samples"]), max(h["samples"])
+        w = h["weights"] if h["weights"] is not None else [1.0] * n
+        if sum(wi for s, wi in zip(h["samples"], w) if lo <= s <= hi) <= 0.5:
+            h["density"] = False
+    return h
+
+
+# ----------------------------------------------------------------------------- histories
+def apply_settings(p, st):
+    """a step of a history: change the plot's x-range, switches, overrides"""
+    if st.get("xrange") is not None:
+        p.xrange = tuple(st["xrange"])
+    for k, v in st.get("over", {}).items():
+        setattr(p, k, v)
+    if "errorBars" in st:
+        p.error_bars(st["errorBars"])
+    if "residuals" in st:
+        p.residuals(st["residuals"])
+    if "legend" in st:
+        p.legend(st["legend"])
+
+
+def _exc(e, stage):
+    import traceback
+    tb = traceback.extract_tb(e.__traceback__)
+    where = next((f for f in reversed(tb) if "qexpy" in f.filename), tb[-1])
+    return {"exception": "{}: {}".format(type(e).__name__, e),
+            "where": "{}:{}:{}".format(stage, os.path.basename(where.filename), where.name)}
+
+
+def later_renders(q, np, case, p, info):
+    """after the first render: apply each step to the same Plot (add objects, change the plot's
+    x-range / switches / overrides) and render again; returns one entry per step, stopping at
+    the first step that cannot be carried out"""
+    import matplotlib.pyplot as mpl
+    outs = []
+    n = case.get("n0", len(case["objs"]))
+    for k, st in enumerate(case["steps"]):
+        mpl.close("all")
+        try:
+            build_plot(q, np, case, p=p, info=info, lo=n, hi=n + st.get("add", 0))
+            n += st.get("add", 0)
+            apply_settings(p, st.get("set", {}))
+        except Skip as e:
+            outs.append({"skip": str(e)})
+            break
+        except Exception as e:  # noqa: BLE001
+            outs.append(_exc(e, "build"))
+            break
+        np.random.seed((case["mcseed"] + k + 1) % 2 ** 32)
+        try:
+            p.savefig(io.BytesIO(), format="png", dpi=20)
+        except Exception as e:  # noqa: BLE001
+            if isinstance(e, AttributeError) and "linalg" in str(e):
+                outs.append({"skip": "C02 defect in the Monte Carlo sampler: {}".format(e)})
+            else:
+                outs.append(_exc(e, "savefig"))
+            break
+        outs.append({"main": read_axes(np, p.main_ax, "main"),
+                     "res": read_axes(np, p.res_ax, "res") if p.res_ax is not None else None})
+    return outs
+
+
+def states(case):
+    """the plot state at every render of a history, each in the form of a single-shot case:
+    the model's expected drawing after a step is `render` of the state at that step"""
+    n = case.get("n0", len(case["objs"]))
+    st = {"objs": case["objs"][:n], "errorBars": case["errorBars"], "residuals": case["residuals"],
+          "legend": case["legend"], "over": dict(case["over"]), "xrange": case["xrange"],
+          "mcseed": case["mcseed"]}
+    out = [st]
+    for step in case.get("steps", []):
+        n += step.get("add", 0)
+        st = dict(st)
+        st["objs"] = case["objs"][:n]
+        s = step.get("set", {})
+        for k in ("errorBars", "residuals", "legend"):
+            if k in s:
+                st[k] = s[k]
+        if s.get("xrange") is not None:
+            st["xrange"] = s["xrange"]
+        if s.get("over"):
+            st["over"] = dict(st["over"])
+            st["over"].update(s["over"])
+        out.append(st)
+    return out
+
+
+def _renderable(objs, xrange):
+    """a plot has an x-domain: its own x-range or an object that brings a range"""
+    return bool(objs) and (xrange is not None or
+                           any(not (o["t"] == "function" and o["range"] is None) for o in objs))
+
+
+def _shift_targets(objs, at):
+    for o in objs[at:]:
+        if o.get("target") is not None and o["target"] >= at:
+            o["target"] += 1
+
+
+def gen_history(rng, kinds=None):
+    """a plot and what happens to it: objects are added, the plot is rendered, further objects
+    are added / the plot's x-range, switches and overrides are changed, it is rendered again
+    (up to three renders). case["objs"] lists all objects in the order of adding, the first
+    case["n0"] of them are on the plot at the first render; case["steps"] = [{"add": number of
+    further objects, "set": {xrange, errorBars, residuals, legend, over}}]; the top-level
+    switches are those of the first render."""
+    case = gen_case(rng, kinds)
+    objs = [dict(o) for o in case["objs"]]
+    # histogram options; sometimes a second histogram next to the first
+    i = 0
+    while i < len(objs):
+        o = objs[i]
+        if o["t"] == "hist":
+            target = i + 1 < len(objs) and objs[i + 1].get("on") == "hist"
+            objs[i] = hist_options(rng, o, target=target)
+            if not target and rng.random() < 0.25:
+                _shift_targets(objs, i + 1)
+                objs.insert(i + 1, hist_options(rng, gen_hist(rng)))
+                i += 1
+        elif o["t"] == "fit" and o["via"] == "plot.fit" and o.get("on") != "hist" and rng.random() < 0.3:
+            # a second Plot.fit on the same data set (another model): two curves, two residual sets
+            model = rng.choice(["linear", "quadratic"] if o["k"] >= 3 else ["linear"])
+            f2 = {"t": "fit", "via": "plot.fit", "model": model, "degrees": None, "parguess": None,
+                  "range": None, "data": o["data"], "label": rng.choice(["", "second fit"]),
+                  "k": {"linear": 2, "quadratic": 3}[model], "target": o.get("target")}
+            _shift_targets(objs, i + 1)
+            objs.insert(i + 1, f2)
+            i += 1
+        i += 1
+    case["objs"] = objs
+    # the plot is created and rendered through the module-level functions (plot / hist / savefig)
+    case["via_module"] = rng.random() < 0.3 and not (objs[0]["t"] == "fit" and objs[0]["via"] == "plot.fit")
+    if rng.random() < 0.15:
+        return case                                   # rendered once
+    n = len(objs)
+    cands = [k for k in range(1, n + 1) if _renderable(objs[:k], case["xrange"])]
+    if not cands:
+        return case
+    n0 = rng.choice(cands[:max(1, (len(cands) + 1) // 2)] if rng.random() < 0.6 else cands)
+    nsteps = 1 if rng.random() < 0.6 else 2
+    rest = n - n0
+    adds = [rest] if nsteps == 1 else (lambda a: [a, rest - a])(rng.randint(0, rest))
+    cur = {"errorBars": case["errorBars"], "residuals": case["residuals"], "legend": case["legend"]}
+    steps, seen = [], n0
+    for add in adds:
+        st = {}
+        seen += add
+        floating = any(o["t"] == "function" and o["range"] is None for o in objs[:seen])
+        if rng.random() < (0.5 if floating else 0.15):
+            st["xrange"] = sorted([rng.uniform(-10, 0), rng.uniform(1, 12)])
+        for k in ("errorBars", "residuals", "legend"):
+            if rng.random() < 0.35:
+                cur[k] = not cur[k]
+                st[k] = cur[k]
+        if rng.random() < 0.25:
+            k = rng.choice(["xname", "xunit", "yname", "yunit", "title"])
+            st["over"] = {k: rng.choice(["", "R", "re named"])}
+        if not st and not add:
+            cur["errorBars"] = not cur["errorBars"]
+            st["errorBars"] = cur["errorBars"]
+        steps.append({"add": add, "set": st})
+    case["n0"] = n0
+    case["steps"] = steps
+    return case
+
+
+def describe_history(case):
+    """the whole history in words: initial objects, each step, for replay files"""
+    sts = states(case)
+    out = ["render 1: " + ("[via qexpy.plotting.plot/hist/savefig] " if case.get("via_module") else "")
+           + describe(sts[0])]
+    n = case.get("n0", len(case["objs"]))
+    for k, step in enumerate(case.get("steps", [])):
+        added = {"objs": case["objs"][n:n + step.get("add", 0)], "errorBars": sts[k + 1]["errorBars"],
+                 "residuals": sts[k + 1]["residuals"], "legend": sts[k + 1]["legend"],
+                 "over": sts[k + 1]["over"], "xrange": sts[k + 1]["xrange"]}
+        n += step.get("add", 0)
+        out.append("step {}: add [{}]; set {} -> render {}: {}".format(
+            k + 1, describe(added).split(" | ")[0], step.get("set", {}), k + 2,
+            describe(sts[k + 1]).split(" | ", 1)[1]))
+    return out
+
+
+def legend_label(o):
+    """the text an object contributes to the legend ("" = none): its label, a data set's name"""
+    if o["t"] == "dataset":
+        return o.get("label") or o.get("name") or "XY Dataset"
+    return o.get("label") or ""
+
+
+class ModulePlot:
+    """the Plot is created by the module-level function qexpy.plotting.plot / hist with the first
+    object (as in the documentation) and rendered through the module-level savefig, which draws
+    the buffered (latest) plot; everything else goes to the Plot those functions returned"""
+
+    def __init__(self):
+        object.__setattr__(self, "_real", None)
+
+    def plot(self, *args, **kwargs):
+        import qexpy.plotting as qplt
+        if self._real is None:
+            object.__setattr__(self, "_real", qplt.plot(*args, **kwargs))
+            return None
+        return self._real.plot(*args, **kwargs)
+
+    def hist(self, *args, **kwargs):
+        import qexpy.plotting as qplt
+        if self._real is None:
+            n, edges, real = qplt.hist(*args, **kwargs)
+            object.__setattr__(self, "_real", real)
+            return n, edges
+        return self._real.hist(*args, **kwargs)
+
+    def savefig(self, filename, **kwargs):
+        import qexpy.plotting as qplt
+        return qplt.savefig(filename, **kwargs)
+
+    def __getattr__(self, name):
+        return getattr(object.__getattribute__(self, "_real"), name)
+
+    def __setattr__(self, name, value):
+        setattr(self._real, name, value)
